@@ -34,6 +34,7 @@ func init() {
 			{ID: "C05.R14", Text: "saves happen and mean what they say: the session flags: Close records its closeWithCancel argument (before closing streams) in the flag the end listener reads; stops the mitigation ⇔ ¬Disabled and the schedule ⇔ checkpoint≠nil; hands the finish token ⇔ ¬finishedWithEndEvent; open←true ends Open and open←false is stored by Close; Stream.Save is Checkpoint.Save; Open starts the schedule, whose loop saves under Type==auto", Run: sessionFlags},
 			{ID: "C05.R15", Text: "the per-vBucket checkpoint write is upsert | upsert(key not found)→create | →create(ok)→upsert, and the error of the last step taken is the result", Run: upsertLadder},
 			{ID: "C05.R16", Text: "an explicit Commit saves: the client's start and close paths call by call — Commit is Stream.Save under no condition (same rule as C13.R23)", Run: clientWiring},
+			{ID: "C05.R17", Text: "a non-document event reaches the position writer whenever the gate lets it pass: the seqno-advanced and marker handlers forward under no other condition of their own (same rule as C06.R7)", Run: markerInstall},
 			{ID: "C05.R8", Text: "mark/clear atomicity: the sites that mark the dirty state and the site that clears it hold a common mutex", Run: c05r8},
 		},
 	})
